@@ -290,7 +290,7 @@ Section TxProofs.
       - intros k a [].
     Qed.
 
-    Lemma check_files_ok fs : forall c c' ok, cache_ok ts c -> check_files (Some ts) c fs = (c', ok) ->
+    Lemma check_layouts_ok fs : forall c c' ok, cache_ok ts c -> check_layouts (Some ts) c fs = (c', ok) ->
       cache_ok ts c' /\ (ok = true -> forall p, In p fs -> footer_of p = A).
     Proof.
       induction fs as [|p r IH]; simpl; intros c c' ok C H.
@@ -305,6 +305,14 @@ Section TxProofs.
         + destruct (IH _ _ _ C1 H) as [C2 Pf]. split; [exact C2|]. intros O q [->|Hq]; [|exact (Pf O q Hq)].
           unfold footer_of. rewrite F. apply aschema_eqb_eq. exact EQ.
         + inversion H; subst. split; [exact C1 | discriminate].
+    Qed.
+
+    Lemma check_files_ok fs : forall c c' ok, cache_ok ts c -> check_files (Some ts) c fs = (c', ok) ->
+      cache_ok ts c' /\ (ok = true -> forall p, In p fs -> footer_of p = A).
+    Proof.
+      intros c c' ok C. unfold check_files. destruct (check_layouts (Some ts) c fs) as [c1 ok1] eqn:CL. intro H. inversion H; subst.
+      destruct (check_layouts_ok _ _ _ _ C CL) as [C1 Pf]. split; [exact C1|].
+      intro O. apply andb_true_iff in O. exact (Pf (proj1 O)).
     Qed.
 
     Lemma invp_set_cache w h c : InvP w -> cache_ok ts c -> InvP (set_cache w h c).
@@ -643,3 +651,55 @@ Proof. intros CK NDn NDi QT. exact (tx_history_filter conv ts CK NDn NDi X txs f
 Lemma tx_exact rnd32 conv : conv_sound rnd32 conv -> forall ts txs,
   full_scan (run_txs conv (init (Some ts)) txs) = Some (txs_expected conv ts rnd32 (init (Some ts)) txs).
 Proof. intros CS ts txs. exact (tx_exact_history conv ts rnd32 CS txs). Qed.
+
+(* ---- the same two under the hypothesis the model needs to speak for the code: no pre-built file is handed to
+   append_files twice in the history (the code lists a path once -- seen_paths --, this model scans the rows of a file adopted
+   twice twice) ---- *)
+Lemma tx_filter_history_once conv X ts txs fs :
+  conv_kinds conv -> NoDup (map fname (sfields ts)) -> NoDup (map fid (sfields ts)) ->
+  Forall (txn_Q pf_typed) txs -> NoDup (adopted_ids txs) ->
+  let w := run_txs conv (init (Some ts)) txs in
+  filtered_scan X fs w = Some (filter (row_selected X fs) (map vrow (flat_map df_rows (current w)))).
+Proof. intros CK NDn NDi QT _. exact (tx_filter_history conv X ts txs fs CK NDn NDi QT). Qed.
+
+Lemma tx_exact_once rnd32 conv : conv_sound rnd32 conv -> forall ts txs, NoDup (adopted_ids txs) ->
+  full_scan (run_txs conv (init (Some ts)) txs) = Some (txs_expected conv ts rnd32 (init (Some ts)) txs).
+Proof. intros CS ts txs _. exact (tx_exact rnd32 conv CS ts txs). Qed.
+
+(* ---- the other caller-supplied fields of a pre-built DataFile ---- *)
+Lemma keys_of_fields_ok (l : list field) :
+  forallb (fun k : option Z => match k with Some _ => true | None => false end) (map (fun f => Some (fid f)) l) = true.
+Proof. induction l as [|f l IH]; simpl; auto. Qed.
+
+Lemma checked_claims_sound ts c fs c' : check_files ts c fs = (c', true) ->
+  forall p, In p fs -> claims_sound (stored_claims ts p) p = true.
+Proof.
+  unfold check_files. destruct (check_layouts ts c fs) as [c1 ok1]. intro H. injection H as E1 E2.
+  apply andb_true_iff in E2. destruct E2 as [_ V]. intros p Hp.
+  pose proof (proj1 (forallb_forall _ _) V p Hp) as Vp. unfold claims_verifiable in Vp.
+  unfold claims_sound, stored_claims. simpl.
+  apply andb_true_iff. split; [apply andb_true_iff; split|].
+  - destruct (pc_stat_keys (pf_claims p)); [reflexivity|]. destruct ts as [s|]; [apply keys_of_fields_ok | reflexivity].
+  - destruct (pc_sum (pf_claims p)) as [[|]|]; auto.
+  - apply Z.eqb_refl.
+Qed.
+
+(* an accepted append_files call (tag 0), in any world, with any window: every file it was given is stored with sound claims *)
+Lemma accepted_files_claims_sound conv w m h fs w' wr added :
+  call_step conv w m h (CFiles fs) = (w', wr, 0, added) ->
+  forall p, In p fs -> claims_sound (stored_claims (w_schema w) p) p = true.
+Proof.
+  unfold call_step, call_files, seen_schema.
+  destruct (check_files (w_schema w) (cache_of w h) fs) as [c' ok] eqn:CF.
+  destruct ok.
+  - intros _. exact (checked_claims_sound _ _ _ _ CF).
+  - intro H. exfalso. inversion H.
+Qed.
+
+(* the unrepaired behaviour stores an entry no read can decode / a checksum the file fails / a count that is not the file's *)
+Definition claims_as_given_sound_full : Prop := forall p : pfile, claims_sound (stored_claims_as_given p) p = true.
+Definition ex_bad_key : pfile :=
+  {| pf_id := 70; pf_canonical := true; pf_exists := true; pf_parquet := true; pf_footer := Some []; pf_rows := [];
+     pf_lo := None; pf_hi := None; pf_claims := {| pc_stat_keys := [None]; pc_sum := None; pc_count := 0 |} |}.
+Lemma claims_as_given_refuted : ~ claims_as_given_sound_full.
+Proof. intro H. specialize (H ex_bad_key). vm_compute in H. discriminate H. Qed.
